@@ -283,7 +283,7 @@ func cmdCheck(args []string) int {
 		if bs == 0 {
 			// per harness; generous, so that a loaded machine does not turn
 			// a complete exploration into an inconclusive one
-			bs = 1500
+			bs = 3000
 			if tier == "thorough" {
 				bs = 7200
 			}
